@@ -69,7 +69,10 @@ func (h UserDataHeader) WriteTo(w io.Writer) (n int64, err error) {
 		buf.Write(data)
 	}
 	data := buf.Bytes()
-	data[0] = byte(len(data)) - 1
+	if len(data)-1 > 0xFF {
+		return
+	}
+	data[0] = byte(len(data) - 1)
 	return buf.WriteTo(w)
 }
 
